@@ -271,9 +271,10 @@ func c08Eval(r *harness.Run, entries []c08Entry, scope string, opt bool, sw map[
 			sb.WriteString("\t" + T + ": " + target + "\n")
 			headPlain = append(headPlain, "\tmap_script "+T+", "+target)
 		case 0:
-			refs = append(refs, "L"+fmt.Sprint(i))
-			sb.WriteString("\t" + T + ": L" + fmt.Sprint(i) + "\n")
-			headPlain = append(headPlain, "\tmap_script "+T+", L"+fmt.Sprint(i))
+			// (plain label entries alternate between two scripts: several map script types may name the same script)
+			refs = append(refs, "L"+fmt.Sprint(i%2))
+			sb.WriteString("\t" + T + ": L" + fmt.Sprint(i%2) + "\n")
+			headPlain = append(headPlain, "\tmap_script "+T+", L"+fmt.Sprint(i%2))
 		case 1:
 			body := c08Body(e.body, T)
 			sb.WriteString("\t" + T + " {\n" + body + "\t}\n")
